@@ -177,11 +177,13 @@ CLAIMED["C02"] = dict(
          "entry point (Operation.clone, clone_without_regions, Region.clone, Region.clone_into into destinations with 0/1/2 blocks at every index, "
          "ModulePass.apply_to_clone): the copy is isomorphic to the source (independent oracle), inside references point into the copy and outside "
          "references are unchanged, the source and the pre-existing destination IR are untouched (text + structural invariants), edits of the copy are "
-         "invisible in the source. Additionally Operation.clone_without_regions is under a discharged contract (operand/successor remapping through the "
-         "mappers, dictionaries copied not shared, results registered, frame) for symbolic list lengths. Exploration is the honest level for the tree-level statement.",
+         "invisible in the source; directed root ops that use their own results. Additionally, under discharged contracts for symbolic list lengths: "
+         "Operation.clone_without_regions (operand/successor remapping through the mappers, dictionaries copied not shared, results registered, frames) and "
+         "Operation.clone (after its final walk every operand of every op of the copy is the image of the source operand under the FINAL value mapper, "
+         "source operand lists untouched; Region.clone_into is an assumed callee contract there). Exploration is the honest level for the tree-level statement.",
     note="Bounded stand-in for the whole-tree statement, never counted as proved; Operation.create trusted in the kernel proof; recursion of clone/clone_into not proved.",
     design="§4 C02",
-    technique="bounded runtime-contract check with independent isomorphism oracle (stand-in) + discharged contract on clone_without_regions",
+    technique="bounded runtime-contract check with independent isomorphism oracle (stand-in) + discharged contracts on clone_without_regions and on the remap walk of Operation.clone",
 )
 
 CLAIMED["C14"] = dict(
